@@ -1357,7 +1357,7 @@ def trees_shards(b):
     out = []
     for n in range(2, b["max_tips"] + 1):
         for shape in tg.shapes(n):
-            for scheme in ("pow2-named", "ones-unnamed"):
+            for scheme in ("pow2-named", "ones-unnamed") + (("nodelike-mixed",) if n >= 4 else ()):
                 out.append({"part": "trees", "shape": _listify(shape), "scheme": scheme, "depth": b["depth"], "tips": n})
     out.sort(key=lambda s: -s["tips"])
     return out
@@ -1805,7 +1805,7 @@ def observe_result(r, ch):
     o.add("class", lambda: type(r).__name__)
     o.add("keys", lambda: [plain(k) for k in r])
     o.add("source", lambda: r.source)
-    for attr in ("name", "lnL", "nfp", "DLC", "unique_Q", "LR", "df", "pvalue"):
+    for attr in ("name", "lnL", "nfp", "DLC", "unique_Q", "LR", "df", "pvalue", "num_evaluations", "elapsed_time", "evaluation_limit"):
         if hasattr(type(r), attr) or hasattr(r, attr):
             o.add(attr, lambda attr=attr: getattr(r, attr), tol=LNL_TOL)
     o.add("values", lambda: {str(plain(k)): _result_value(r[k]) for k in r}, tol=LNL_TOL)
